@@ -1,6 +1,8 @@
 package host
 
 import (
+	"bytes"
+	"encoding/gob"
 	"encoding/json"
 	"fmt"
 	"hash/fnv"
@@ -71,6 +73,29 @@ type c31World struct {
 }
 
 func newC31World() *c31World { return &c31World{base: baseLedger28(), progs: corpus31()} }
+
+// The parent builds the base ledger (which takes a few set-up transactions)
+// and hands it to the workers in a file, so that a worker process has executed
+// NOTHING before its first program: "alone in a fresh process" is exact.
+func saveLedger(l *rt.Ledger, path string) error {
+	var b bytes.Buffer
+	if err := gob.NewEncoder(&b).Encode(l); err != nil {
+		return err
+	}
+	return os.WriteFile(path, b.Bytes(), 0o600)
+}
+
+func loadC31World(path string) *c31World {
+	b, err := os.ReadFile(path)
+	if err != nil {
+		panic("C31 worker: " + err.Error())
+	}
+	l := rt.NewLedger()
+	if err := gob.NewDecoder(bytes.NewReader(b)).Decode(l); err != nil {
+		panic("C31 worker: " + err.Error())
+	}
+	return &c31World{base: l, progs: corpus31()}
+}
 
 func (w *c31World) run(pi int, vm bool) *rt.Result {
 	p := w.progs[pi]
@@ -166,7 +191,7 @@ type c31WorkerOut struct {
 func c31Worker(env *mc.Env) {
 	applyLimits()
 	sel := parseSel(env.Sub)
-	w := newC31World()
+	w := loadC31World(os.Getenv("VERIF_C31_LEDGER"))
 	syms, engOf := w.schedule(sel)
 	if sel["upto"] != "" {
 		syms = syms[:selInt(sel, "upto")+1]
@@ -258,6 +283,12 @@ func runC31(env *mc.Env) {
 	w := newC31World()
 	n := len(w.progs)
 	env.R.Set("programs", n)
+	if cleanup, err := c31PublishLedger(w); err != nil {
+		env.R.HarnessError("%v", err)
+		return
+	} else {
+		defer cleanup()
+	}
 
 	type task struct {
 		sel string
@@ -421,7 +452,28 @@ func runC31(env *mc.Env) {
 	}
 	sort.Strings(names)
 	env.R.Sample(map[string]any{"programs": strings.Join(names, " ")})
+	for _, o := range outs {
+		if o == nil {
+			return // a cap was hit (reported by ParallelFor): no bound completed
+		}
+	}
 	env.R.BoundCompleted(fmt.Sprintf("alone x3; after every q (fresh process per q); every window of B(%d,3) per engine; every window of B(%d,2) over programs x engines", k3, 2*n))
+}
+
+// c31PublishLedger writes the base ledger to a temporary file and points the
+// workers at it through the environment.
+func c31PublishLedger(w *c31World) (cleanup func(), err error) {
+	f, err := os.CreateTemp("", "verif-c31-ledger-*")
+	if err != nil {
+		return nil, err
+	}
+	f.Close()
+	if err := saveLedger(w.base, f.Name()); err != nil {
+		os.Remove(f.Name())
+		return nil, err
+	}
+	os.Setenv("VERIF_C31_LEDGER", f.Name())
+	return func() { os.Remove(f.Name()) }, nil
 }
 
 func replayC31(env *mc.Env, raw json.RawMessage) (bool, string) {
@@ -430,6 +482,19 @@ func replayC31(env *mc.Env, raw json.RawMessage) (bool, string) {
 		return false, err.Error()
 	}
 	w := newC31World()
+	if os.Getenv("VERIF_C31_LEDGER") == "" {
+		cleanup, err := c31PublishLedger(w)
+		if err != nil {
+			return false, err.Error()
+		}
+		defer func() { cleanup(); os.Unsetenv("VERIF_C31_LEDGER") }()
+	} else if _, err := os.Stat(os.Getenv("VERIF_C31_LEDGER")); err != nil {
+		cleanup, err := c31PublishLedger(w)
+		if err != nil {
+			return false, err.Error()
+		}
+		defer func() { cleanup(); os.Unsetenv("VERIF_C31_LEDGER") }()
+	}
 	pi := -1
 	for i, p := range w.progs {
 		if p.Name == c.Prog {
